@@ -10,6 +10,7 @@ from __future__ import annotations
 
 import json
 import os
+import re
 import subprocess
 
 import z3
@@ -324,6 +325,41 @@ def job_assign(kind, name):
     return verify(target, setup, post, call=lambda *a: None, max_paths=4000)
 
 
+def job_assign_count(kind, name, new_kind=None):
+    """mo.norba / mo.norbb / mo.kind = v from a state |= Inv: refused, or Inv still holds afterwards
+    ("kinds that contradict the orbital counts ... are rejected at construction or assignment";
+    "arrays whose lengths disagree with the number of orbitals ... are rejected")."""
+    target = f"{T}.assign.{name}[{kind}{'->' + new_kind if new_kind else ''}]"
+
+    def setup(ctx, interp):
+        obj, sy = make_mo(ctx, kind)
+        ctx.assume(inv(obj, interp))
+        if name == "kind":
+            v = new_kind
+        else:
+            n = z3.Int("new.n")
+            ctx.assume(n >= 0)
+            v = SOpt(z3.Bool("new.isnone"), SInt(n))
+        return None, [], {}, dict(obj=obj, sy=sy, v=v)
+
+    def post(out, env):
+        ctx, interp = out.ctx, out.interp
+        obj = env["obj"]
+        v = interp.resolve(env["v"])
+        try:
+            interp.store_attr(obj, name, v)
+            raised = None
+        except PyRaise as pr:
+            raised = pr.exc
+        if raised is not None:
+            ctx.prove(f"{target}::raises.only-TypeError-or-ValueError", isinstance(raised, (TypeError, ValueError)), kind="raises")
+            return
+        what = "kind-agrees-with-the-orbital-counts-and-array-lengths" if name == "kind" else "array-lengths-still-agree-with-the-number-of-orbitals"
+        ctx.prove(f"{target}::step.accepted-only-if-{what}", inv(obj, interp), kind="inv-step")
+
+    return verify(target, setup, post, call=lambda *a: None, max_paths=4000)
+
+
 def job_init():
     """MolecularOrbitals(kind, norba, norbb, ...): establishes Inv or raises TypeError / ValueError."""
     target = f"{T}.__init__"
@@ -599,6 +635,26 @@ print("a length-1 array was accepted for {want} orbitals; {which} =", mo.{which}
 print("REPRODUCED"); sys.exit(1)
 """
 
+REPLAY_COUNT = """
+import sys
+import numpy as np
+from iodata.orbitals import MolecularOrbitals
+START = dict(restricted=("restricted", 3, 3, 3), unrestricted=("unrestricted", 3, 2, 5), generalized=("generalized", None, None, 3))
+kind, na, nb, norb = START[{kind!r}]
+mo = MolecularOrbitals(kind, na, nb, occs=np.ones(norb), energies=np.zeros(norb), coeffs=np.ones((4, norb)))
+try:
+    mo.{name} = {value!r}
+except (TypeError, ValueError) as exc:
+    print("rejected:", exc); sys.exit(0)
+print("accepted: kind", mo.kind, "norba", mo.norba, "norbb", mo.norbb, "len(occs)", len(mo.occs))
+try:
+    MolecularOrbitals(mo.kind, mo.norba, mo.norbb, occs=mo.occs, energies=mo.energies, coeffs=mo.coeffs)
+    print("the state after the assignment is one the constructor accepts"); sys.exit(0)
+except (TypeError, ValueError) as exc:
+    print("the constructor rejects the state the assignment left behind:", exc)
+print("REPRODUCED"); sys.exit(1)
+"""
+
 REPLAY_SPINPOL = """
 import sys
 import numpy as np
@@ -619,10 +675,12 @@ def run(chk):
         "numpy axioms: element-wise + - / ==, np.clip, astype(int) = truncation, .all() = forall, slicing = views, np.array(x) = copy, ndarray.sum = recursive sum",
         "summation lemmas proved by explicit induction in z3 (pyvc/lemmas.py); instances added by the harness",
     ]
-    chk.assumptions += [A_FP + " -- in particular (a+b)/2 + (a-b)/2 == a exactly", "occsa/occsb setters: a length-1 array assigned to an object with another number of orbitals is broadcast by numpy instead of being rejected; this case is excluded by precondition (not modelled)", "assignment alphabet: occs, occs_aminusb, occsa, occsb, coeffs, energies, irreps (norba/norbb/kind are not re-assigned; the quantifier does not list them)"]
+    chk.assumptions += [A_FP + " -- in particular (a+b)/2 + (a-b)/2 == a exactly", "occsa/occsb setters: a length-1 array assigned to an object with another number of orbitals is broadcast by numpy instead of being rejected; this case is excluded by precondition (not modelled)", "assignment alphabet: occs, occs_aminusb, occsa, occsb, coeffs, energies, irreps, norba, norbb, kind"]
     jobs = [("checks.c12", "job_getters", {"kind": k}) for k in ("restricted", "unrestricted", "generalized")]
     jobs += [("checks.c12", "job_setters", {"kind": k, "which": w}) for k in ("restricted", "unrestricted", "generalized") for w in ("occsa", "occsb")]
     jobs += [("checks.c12", "job_assign", {"kind": k, "name": n}) for k in ("restricted", "unrestricted", "generalized") for n in ("occs", "occs_aminusb", "coeffs", "energies", "irreps")]
+    jobs += [("checks.c12", "job_assign_count", {"kind": k, "name": n}) for k in ("restricted", "unrestricted", "generalized") for n in ("norba", "norbb")]
+    jobs += [("checks.c12", "job_assign_count", {"kind": k, "name": "kind", "new_kind": k2}) for k in ("restricted", "unrestricted", "generalized") for k2 in ("restricted", "unrestricted", "generalized", "other")]
     jobs += [("checks.c12", "job_init", {}), ("checks.c12", "job_shell", {}), ("checks.c12", "job_lemmas", {})]
     collect(chk, run_jobs(jobs))
     run_bounded(chk)
@@ -635,5 +693,9 @@ def run(chk):
                 chk.set_replay(o.name, REPLAY_BROADCAST.format(kind="restricted", na=3, nb=3, occs=[2.0, 1.0, 0.0], which=which, want=3))
             else:
                 chk.set_replay(o.name, REPLAY_BROADCAST.format(kind="unrestricted", na=2, nb=2, occs=[1.0, 1.0, 0.0, 0.0], which=which, want=2))
+    for o in chk.ledger.obligations.values():
+        m = re.search(r"assign\.(norba|norbb|kind)\[(\w+)(?:->(\w+))?\]::step\.accepted-only-if", o.name)
+        if o.status == "refuted" and m:
+            chk.set_replay(o.name, REPLAY_COUNT.format(kind=m.group(2), name=m.group(1), value=m.group(3) if m.group(1) == "kind" else 4))
     chk.samples = [o.as_dict() for o in list(chk.ledger.obligations.values())[:6]]
     chk.notes["explanation"] = "C12: invariant + getter/setter/validator contracts for every kind and all array contents; Shell validators and nbasis loop invariant"
